@@ -1,4 +1,5 @@
 SPECIFICATION Spec
 CONSTANTS Depth = 2
+          DeepDepth = 3
           Sidecar = TRUE
 INVARIANT Lemmas
